@@ -29,6 +29,91 @@ def _tt(pred, base, col, vals):
         return None
 
 
+def check_trim(db, chk, rule: str) -> None:
+    """per-rank trimming of the trailing profiler step (also C02: the links written at parse time survive the trim -
+    a device activity is kept iff its launch call is kept)"""
+    m = db.mod(TM)
+    st = db.mod("hta.common.trace_symbol_table")
+    # ------------------------------------------------------------------ trimming, per rank
+    TR = ("param", "TR")
+    ref2 = f"{TM}:Trace._filter_irrelevant_gpu_kernels.filter_gpu_kernels_for_one_rank"
+    f2 = m.func("Trace._filter_irrelevant_gpu_kernels.filter_gpu_kernels_for_one_rank")
+    where2 = m.loc(f2)
+    chk.analysed_add("functions", ref2)
+    STEPS = T.P("STEPS")
+    for inc in (False, True):
+        I = Interp(db, decide=assume(("hascol", TR, "stream")))
+        runs = I.explore(ref2, lambda I: {"trace_df": Frame(TR)},
+                         lambda I: {"self": Obj("self", attrs={"symbol_table": Obj("symtab", cls=(st, "TraceSymbolTable"))}), "profiler_steps": STEPS, "include_last_profiler_step": inc})
+        runs = [r for r in runs if r.raised is None and isinstance(r.ret, Frame)]
+        tag = f"[include_last={inc}]"
+        if len(runs) != 1 or runs[0].ret.base[0] != "concat":
+            chk.ob(rule, f"{tag} per-rank trim: one path returning concat(device part, host part)", None, where2, found=len(runs))
+            continue
+        R = runs[0].ret
+        parts = [p for k, p in R.base[2]]
+        joins = [p for p in parts if isinstance(p, tuple) and isinstance(p[0], tuple) and p[0] and p[0][0] == "join"]
+        hosts = [p for p in parts if isinstance(p, tuple) and p[0] == TR]
+        if len(parts) != 2 or len(joins) != 1 or len(hosts) != 1:
+            chk.ob(rule, f"{tag} output = kept device rows + kept host rows, each once", False if not T.has_opaque(R.base) else None, where2, found=[T._ctx(p)[:100] if isinstance(p, tuple) else p for p in parts],
+                   accepted="[device rows joined on kept host correlations, kept host rows]")
+            continue
+        hrows = hosts[0][1]
+        conj = list(hrows[1]) if hrows[0] == "and" else [hrows]
+        TSc = T.col(TR, "ts")
+        cut_atoms = [c for c in conj if T.find(c, lambda s: s[0] == "agg")]
+        side = [c for c in conj if c not in cut_atoms]
+        # host side predicate = CPUOperatorFilter rows (checked as a table in C02/C18); here: it must be false for a plain device row and true for a plain host row
+        def leaf(vals):
+            def f(t):
+                if t == T.col(TR, "stream"):
+                    return vals[0]
+                if t == T.col(TR, "correlation"):
+                    return vals[1]
+                if t == T.col(TR, "name"):
+                    return 5
+                if t[0] == "call" and str(t[1]).endswith(".get"):
+                    return 1001 if "Event" in T.show(t) else 1002
+                raise T.Unknown(t)
+            return f
+        try:
+            sv = {(-1, 9): bool(T.evaluate(T.and_(*side), leaf((-1, 9)))), (7, 9): bool(T.evaluate(T.and_(*side), leaf((7, 9)))), (-1, -1): bool(T.evaluate(T.and_(*side), leaf((-1, -1))))}
+            chk.ob(rule, f"{tag} host part = host-side rows (host launch kept, device activity excluded, plain host op kept)", sv == {(-1, 9): True, (7, 9): False, (-1, -1): True}, where2,
+                   found={str(k): v for k, v in sv.items()}, accepted="host side of CPUOperatorFilter")
+        except T.Unknown as u:
+            chk.ob(rule, f"{tag} host part predicate understood", None, where2, found=T.show(u.args[0])[:120])
+        step_rows_ok = lambda ctx: ctx[0] == TR and ("in", T.col(TR, "name"), STEPS) in (ctx[1][1] if ctx[1][0] == "and" else (ctx[1],))
+        if len(cut_atoms) != 1:
+            chk.ob(rule, f"{tag} one cut-off comparison on ts", False if not T.has_opaque(hrows) else None, where2, found=[T.show(c)[:160] for c in cut_atoms], accepted="one")
+            continue
+        cut = cut_atoms[0]
+        aggs = T.find(cut, lambda s: s[0] == "agg")
+        a = aggs[0]
+        if inc:
+            exp = T.cmp("<=", TSc, T.agg("max", T.col(TR, "end"), a[3]))
+            txt = "ts <= max(end of the step rows)  (inclusive: the last step is requested)"
+        else:
+            exp = T.cmp("<", TSc, T.agg("max", TSc, a[3]))
+            txt = "ts < max(ts of the step rows)  (strict: events of the last step are dropped)"
+        chk.ob(rule, f"{tag} kept host rows: {txt}", cut == exp and step_rows_ok(a[3]), where2, found=T.show(cut)[:200], accepted=T.show(exp)[:200],
+               why="comparing the event's end instead of its start drops events that straddle the cut-off; a wrong strictness keeps/drops the boundary events")
+        # device part
+        jb = joins[0][0]
+        _, how, Lc, Rc, lk, rk, sfx = jb
+        CORR = T.col(TR, "correlation")
+        okj = how == "inner" and lk == (CORR,) and rk == (CORR,) and Rc[0] == TR and Rc[1] == hrows and joins[0][1] == T.TRUE
+        chk.ob(rule, f"{tag} kept device rows = device-side rows inner-joined on the correlation ids of the KEPT host rows", okj, where2,
+               found=[how, T.show(lk), T._ctx(Rc)[:160]], accepted="inner join on correlation with the kept host rows",
+               why="a left join keeps every activity; joining on all host rows keeps the trailing step's activities")
+        try:
+            dvv = {(-1, 9): bool(T.evaluate(Lc[1], leaf((-1, 9)))), (7, 9): bool(T.evaluate(Lc[1], leaf((7, 9))))}
+            chk.ob(rule, f"{tag} device part is taken from the device-side rows", dvv == {(-1, 9): False, (7, 9): True} and Lc[0] == TR, where2, found={str(k): v for k, v in dvv.items()},
+                   accepted="device side of GPUKernelFilter")
+        except T.Unknown as u:
+            chk.ob(rule, f"{tag} device part predicate understood", None, where2, found=T.show(u.args[0])[:120])
+    chk.floor(rule, 8)
+
+
 def run(db, chk) -> None:
     m = db.mod(TM)
     st = db.mod("hta.common.trace_symbol_table")
@@ -98,84 +183,9 @@ def run(db, chk) -> None:
     chk.floor("C12.R1-host-rule", 6)
     chk.floor("C12.R2-device-rule", 3)
 
-    # ------------------------------------------------------------------ trimming, per rank
+    check_trim(db, chk, "C12.R3-trim")
     TR = ("param", "TR")
-    ref2 = f"{TM}:Trace._filter_irrelevant_gpu_kernels.filter_gpu_kernels_for_one_rank"
-    f2 = m.func("Trace._filter_irrelevant_gpu_kernels.filter_gpu_kernels_for_one_rank")
-    where2 = m.loc(f2)
-    chk.analysed_add("functions", ref2)
     STEPS = T.P("STEPS")
-    for inc in (False, True):
-        I = Interp(db, decide=assume(("hascol", TR, "stream")))
-        runs = I.explore(ref2, lambda I: {"trace_df": Frame(TR)},
-                         lambda I: {"self": Obj("self", attrs={"symbol_table": Obj("symtab", cls=(st, "TraceSymbolTable"))}), "profiler_steps": STEPS, "include_last_profiler_step": inc})
-        runs = [r for r in runs if r.raised is None and isinstance(r.ret, Frame)]
-        tag = f"[include_last={inc}]"
-        if len(runs) != 1 or runs[0].ret.base[0] != "concat":
-            chk.ob("C12.R3-trim", f"{tag} per-rank trim: one path returning concat(device part, host part)", None, where2, found=len(runs))
-            continue
-        R = runs[0].ret
-        parts = [p for k, p in R.base[2]]
-        joins = [p for p in parts if isinstance(p, tuple) and isinstance(p[0], tuple) and p[0] and p[0][0] == "join"]
-        hosts = [p for p in parts if isinstance(p, tuple) and p[0] == TR]
-        if len(parts) != 2 or len(joins) != 1 or len(hosts) != 1:
-            chk.ob("C12.R3-trim", f"{tag} output = kept device rows + kept host rows, each once", False if not T.has_opaque(R.base) else None, where2, found=[T._ctx(p)[:100] if isinstance(p, tuple) else p for p in parts],
-                   accepted="[device rows joined on kept host correlations, kept host rows]")
-            continue
-        hrows = hosts[0][1]
-        conj = list(hrows[1]) if hrows[0] == "and" else [hrows]
-        TSc = T.col(TR, "ts")
-        cut_atoms = [c for c in conj if T.find(c, lambda s: s[0] == "agg")]
-        side = [c for c in conj if c not in cut_atoms]
-        # host side predicate = CPUOperatorFilter rows (checked as a table in C02/C18); here: it must be false for a plain device row and true for a plain host row
-        def leaf(vals):
-            def f(t):
-                if t == T.col(TR, "stream"):
-                    return vals[0]
-                if t == T.col(TR, "correlation"):
-                    return vals[1]
-                if t == T.col(TR, "name"):
-                    return 5
-                if t[0] == "call" and str(t[1]).endswith(".get"):
-                    return 1001 if "Event" in T.show(t) else 1002
-                raise T.Unknown(t)
-            return f
-        try:
-            sv = {(-1, 9): bool(T.evaluate(T.and_(*side), leaf((-1, 9)))), (7, 9): bool(T.evaluate(T.and_(*side), leaf((7, 9)))), (-1, -1): bool(T.evaluate(T.and_(*side), leaf((-1, -1))))}
-            chk.ob("C12.R3-trim", f"{tag} host part = host-side rows (host launch kept, device activity excluded, plain host op kept)", sv == {(-1, 9): True, (7, 9): False, (-1, -1): True}, where2,
-                   found={str(k): v for k, v in sv.items()}, accepted="host side of CPUOperatorFilter")
-        except T.Unknown as u:
-            chk.ob("C12.R3-trim", f"{tag} host part predicate understood", None, where2, found=T.show(u.args[0])[:120])
-        step_rows_ok = lambda ctx: ctx[0] == TR and ("in", T.col(TR, "name"), STEPS) in (ctx[1][1] if ctx[1][0] == "and" else (ctx[1],))
-        if len(cut_atoms) != 1:
-            chk.ob("C12.R3-trim", f"{tag} one cut-off comparison on ts", False if not T.has_opaque(hrows) else None, where2, found=[T.show(c)[:160] for c in cut_atoms], accepted="one")
-            continue
-        cut = cut_atoms[0]
-        aggs = T.find(cut, lambda s: s[0] == "agg")
-        a = aggs[0]
-        if inc:
-            exp = T.cmp("<=", TSc, T.agg("max", T.col(TR, "end"), a[3]))
-            txt = "ts <= max(end of the step rows)  (inclusive: the last step is requested)"
-        else:
-            exp = T.cmp("<", TSc, T.agg("max", TSc, a[3]))
-            txt = "ts < max(ts of the step rows)  (strict: events of the last step are dropped)"
-        chk.ob("C12.R3-trim", f"{tag} kept host rows: {txt}", cut == exp and step_rows_ok(a[3]), where2, found=T.show(cut)[:200], accepted=T.show(exp)[:200],
-               why="comparing the event's end instead of its start drops events that straddle the cut-off; a wrong strictness keeps/drops the boundary events")
-        # device part
-        jb = joins[0][0]
-        _, how, Lc, Rc, lk, rk, sfx = jb
-        CORR = T.col(TR, "correlation")
-        okj = how == "inner" and lk == (CORR,) and rk == (CORR,) and Rc[0] == TR and Rc[1] == hrows and joins[0][1] == T.TRUE
-        chk.ob("C12.R3-trim", f"{tag} kept device rows = device-side rows inner-joined on the correlation ids of the KEPT host rows", okj, where2,
-               found=[how, T.show(lk), T._ctx(Rc)[:160]], accepted="inner join on correlation with the kept host rows",
-               why="a left join keeps every activity; joining on all host rows keeps the trailing step's activities")
-        try:
-            dvv = {(-1, 9): bool(T.evaluate(Lc[1], leaf((-1, 9)))), (7, 9): bool(T.evaluate(Lc[1], leaf((7, 9))))}
-            chk.ob("C12.R3-trim", f"{tag} device part is taken from the device-side rows", dvv == {(-1, 9): False, (7, 9): True} and Lc[0] == TR, where2, found={str(k): v for k, v in dvv.items()},
-                   accepted="device side of GPUKernelFilter")
-        except T.Unknown as u:
-            chk.ob("C12.R3-trim", f"{tag} device part predicate understood", None, where2, found=T.show(u.args[0])[:120])
-    chk.floor("C12.R3-trim", 8)
 
     # ------------------------------------------------------------------ guard: fewer than two steps -> nothing dropped
     ref3 = f"{TM}:Trace._filter_irrelevant_gpu_kernels"
